@@ -12,8 +12,9 @@ def correspond(ctx):
                          "emitted by the real cspuz.graph.active_vertices_connected on a real Solver vs the Lean model's "
                          "program (declarations in order, constraints as a multiset); non-trivial = a program was emitted, "
                          "distinct by call arguments"
-                         " + a handful of deterministic medium / LARGE instances per family (graphs.big_graphs: 40, 70 and 258..319 vertices -- vertex ids beyond CPython's small-int cache, more than 32 / 64 vertices --, boards up to 16x17); about half of the Graph objects are observed part-way through construction (accessors read, every graph constraint posted once on a throw-away Solver) before the remaining edges are added")
-    graphcorr.run_cases(ctx, graphcorr.case_avc, ctx.n(400, 6000), "avc", bigs=graphcorr.graph_bigs() + graphcorr.grid_bigs())
+                         " + a handful of deterministic medium / LARGE instances per family (graphs.big_graphs: 40, 70 and 258..319 vertices -- vertex ids beyond CPython's small-int cache, more than 32 / 64 vertices --, boards up to 16x17); about half of the Graph objects are observed part-way through construction (accessors read, every graph constraint posted once on a throw-away Solver) before the remaining edges are added"
+                         " + a deterministic sweep over EVERY size of a medium range (graphs.medium_graphs / medium_grids: for every n from 30 to 130 a star with a rim edge between its last two leaves and a path or cycle; boards of every height 30..130 with width 1 or 2 and a few transposed) -- block arithmetic in an encoder (sums cut into blocks of 24 / 40 / 50 ... with a leftover) changes branch at sizes nobody knows in advance")
+    graphcorr.run_cases(ctx, graphcorr.case_avc, ctx.n(400, 6000), "avc", bigs=graphcorr.graph_bigs() + graphcorr.grid_bigs() + graphcorr.medium_bigs() + graphcorr.medium_grid_bigs())
     if not ctx.quick():
         fs = search(ctx, None, budget=40)
         for f in fs:
@@ -130,6 +131,47 @@ def search(ctx, why, budget=None):
                         f"{len(edges)} edges (edges {edges[:4]} ... {edges[-6:]}), active vertices ({bad[0]}) = {bad[1] if bad[1] is None or len(bad[1]) <= 16 else str(bad[1][:8]) + ' ... ' + str(bad[1][-8:])}: "
                         f"satisfiable={bad[2]} but expected {bad[3]}" + graphs.history_note(n, edges),
                         {"big": True, "n": n, "edges": edges, "acyclic": acyclic, "prim": prim, "pattern_name": bad[0], "active": bad[1]})
+    # EVERY size of the medium range (block arithmetic in the encoder: a leftover block at n = k * block + 1 ...): one cheap graph per n,
+    # a few patterns around the LAST vertex -- a far-apart pair containing it, the last two vertices, first + last, everything
+    for (n, edges) in graphs.medium_graphs("rotate"):
+        pats = [(name, [v in vs for v in range(n)]) for name, vs in (
+            ("vertex n//3 and the last vertex", {n // 3, n - 1}), ("the last two vertices", {n - 2, n - 1}), ("first and last vertex", {0, n - 1}),
+            ("vertex 1, the middle vertex and the last vertex", {1, n // 2, n - 1}), ("all", set(range(n))))]
+        for acyclic in (False, True):
+            key = "medium:" + ("acyclic" if acyclic else "connected")
+            if key in found:
+                continue
+            try:
+                bad = _check_patterns(n, edges, acyclic, False, pats)
+            except Exception as e:
+                bad = ("exception", None, core.err_name(e), str(e)[:200])
+            ctx.count("search:" + key)
+            if bad:
+                found[key] = Finding(
+                    "avc:" + key[7:] + ":medium-graph",
+                    f"active_vertices_connected(acyclic={acyclic}, use_graph_primitive=False) on {graphs.instance_name(n, edges)} ({n} vertices, "
+                    f"edges {edges[:3]} ... {edges[-3:]}), active vertices ({bad[0]}) = {bad[1] if bad[1] is None or len(bad[1]) <= 16 else str(bad[1][:8]) + ' ... ' + str(bad[1][-8:])}: "
+                    f"satisfiable={bad[2]} but expected {bad[3]}" + graphs.history_note(n, edges),
+                    {"big": True, "n": n, "edges": edges, "acyclic": acyclic, "prim": False, "pattern_name": bad[0], "active": bad[1]})
+    for idx, (h, w) in enumerate(graphs.medium_grids()[::2]):
+        acyclic = idx % 2 == 1
+        key = "medium-board:" + ("acyclic" if acyclic else "connected")
+        if key in found:
+            continue
+        regions = [("two opposite corners", {(0, 0), (h - 1, w - 1)}), ("last cell and the cell two rows above it", {(h - 1, w - 1), (max(0, h - 3), w - 1)}),
+                   ("last column", {(y, w - 1) for y in range(h)}), ("last cell and its neighbour", {(h - 1, w - 1), (h - 2, w - 1) if h > 1 else (0, w - 2)})]
+        try:
+            bad = _check_board(h, w, acyclic, regions)
+        except Exception as e:
+            bad = ("exception", None, core.err_name(e), str(e)[:200])
+        ctx.count("search:" + key)
+        if bad:
+            rows = bad[1] if bad[1] is None or len(bad[1]) <= 12 else bad[1][:3] + ["... (%d rows)" % h] + bad[1][-4:]
+            found[key] = Finding(
+                "avc:grid:medium-board",
+                f"active_vertices_connected(acyclic={acyclic}) on a {h}x{w} BoolArray2D, active cells ({bad[0]}) = {rows}: "
+                f"satisfiable={bad[2]} but expected {bad[3]}",
+                {"board": [h, w], "acyclic": acyclic, "region_name": bad[0], "rows": bad[1]})
     # winding regions (serpentines, spirals: the in-region distances exceed the board's diameter) through the 2-D entry point
     for (h, w) in WINDING_BOARDS:
         for acyclic in (False, True):
